@@ -118,6 +118,9 @@ def run(ctx):
         if cost[r, cidx].sum() > 0:
             bad = [cols_a[i] for i, j in zip(r, cidx) if cost[i, j] > 0]
             return None, "column %r has no counterpart" % bad[0]
+        for n, ((_, a, ba), (_, b, bb), fl) in enumerate(zip(rows_a, rows_b, floors)):
+            if not close(ba, bb, fl):
+                return None, "right-hand side of row %d: %r vs %r" % (n, ba, bb)
         return {cols_b[j]: cols_a[i] for i, j in zip(r, cidx)}, None
 
     def probe(q):
@@ -331,7 +334,9 @@ def run(ctx):
             c.check()
             if colmap is None:
                 key = "tofile:file-differs-from-the-problem"
-                if mf["undeclared"]:
+                if msg.startswith("right-hand side"):
+                    key = "tofile:right-hand-side-differs"
+                elif mf["undeclared"]:
                     key = "tofile:bound-line-for-column-without-entries"
                 elif len(mf["cols"]) != len(scols_used):
                     key = "tofile:number-of-columns"
